@@ -95,8 +95,8 @@ _mc('C15', 'gen',
     'Trusted: reference substitution (binders untouched).', level='exploration')
 _mc('C16', 'tabx',
     'step-mode exploration of the real tableau with an event-fed shadow model compared after the trunk, after every step and after finish',
-    'About 19 000 (quick) executions incl. 1-deviation schedules, all option combinations, model building and a 2-step cut; ~100 000 intermediate states each checked for trunk shape, monotone branches, open view, '
-    'parent extension, history entry identity, step-number stats, tree/leaf/branch agreement and recomputed counts/statistics.',
+    'About 30 000 (quick) executions incl. 1-deviation schedules, all option combinations, model building and a 2-step cut; ~195 000 intermediate states each checked for trunk shape, monotone branches, open view, '
+    'parent extension, history entry identity, step-number stats (incl. a STEP_TICKED record at the step for every node that became ticked on a branch during the step), tree/leaf/branch agreement and recomputed counts/statistics.',
     'Trusted: the shadow model fed only by public events.')
 _mc('C17', 'tabx+seqx',
     'exhaustive cut points (every step limit 1..n+1, every timeout firing point under a virtual clock) on the real tableau; explicit-state BFS over lifecycle call interleavings',
